@@ -56,7 +56,7 @@ UNIT = dict(
              header_re=r"^for \(baction, bprob\) in actions$",
              as_fn="strat_into_box__multi_entry", generics="<A, BA: Borrow<A>, BP: Borrow<f64>>",
              params="baction: BA, bprob: BP, action_inds: &HashMap<A, usize>, dense: &mut Box<[f64]>",
-             ret="out", ret_type="Result<(), StratError>", exit="Ok(())", allow_return=True,
+             ret="out", ret_type="Result<(), StratError>", exit="Ok(())", allow_return=True, continue_as="return Ok(())",
              obligation="C14.V.hash_import.multi_entry",
              rules=["R3", "R1", "R9", "R10"],
              entry="broadcast use fl;\nproof { ax_obeys(); ax_ieee_class(); }",
@@ -75,7 +75,7 @@ ensures
              header_re=r"^for \(baction, bprob\) in actions$",
              as_fn="strat_into_box__single_entry", generics="<A: PartialEq, BA: Borrow<A>, BP: Borrow<f64>>",
              params="baction: BA, bprob: BP, act: &mut &A, seen: &mut bool",
-             ret="out", ret_type="Result<(), StratError>", exit="Ok(())", allow_return=True,
+             ret="out", ret_type="Result<(), StratError>", exit="Ok(())", allow_return=True, continue_as="return Ok(())",
              obligation="C14.V.hash_import.single_entry",
              rules=["R3", "R1", "R9", "R10"],
              entry="broadcast use fl;\nproof { ax_obeys(); ax_ieee_class(); ax_ref_eq::<A>(); }",
@@ -90,7 +90,7 @@ ensures
              header_re=r"^for \(baction, bprob\) in actions$",
              as_fn="strat_into_box_slow__multi_entry", generics="<A, BA: Borrow<A>, BP: Borrow<f64>>",
              params="baction: BA, bprob: BP, info: &InfoActions<A>, info_ind: usize, dense: &mut Box<[f64]>",
-             ret="out", ret_type="Result<(), StratError>", exit="Ok(())", allow_return=True,
+             ret="out", ret_type="Result<(), StratError>", exit="Ok(())", allow_return=True, continue_as="return Ok(())",
              obligation="C14.V.scan_import.multi_entry",
              rules=["R3", "R1", "R9", "R10"],
              body_subst=[(r"let \(act_ind, _\) = info\s*\.actions\s*\.iter\(\)\s*\.enumerate\(\)\s*\.find\(\|\(_, act\)\| act == &action\)\s*\.ok_or\(StratError::InvalidAction\)\?;",
